@@ -118,6 +118,12 @@ func dumpFacts(c *Ctx, what string) {
 		for _, f := range sortedFuncs(c.RAPI) {
 			fmt.Println("RAPI", fname(f))
 		}
+	case "funcs":
+		for _, f := range c.Funcs {
+			if f.Parent() == nil {
+				fmt.Println(fname(f))
+			}
+		}
 	case "cg":
 		for _, f := range c.Funcs {
 			for _, e := range c.CG[f] {
